@@ -51,6 +51,7 @@ type Runner struct {
 	swPark       *Event
 	g2retry      *Event
 	g1queued     bool
+	drained      bool // oracle-only: the store left the expected protocol and was driven to the end of a shutdown
 	// bookkeeping for C03: did an upload/refresh happen since the last commit by G1 started
 	dirtySinceCommitStart bool
 	commitInProgress      bool
@@ -184,9 +185,17 @@ func (r *Runner) expect(ch chan Event, kinds ...string) (Event, bool) {
 				return e, true
 			}
 		}
+		if r.Model == nil && (ch == r.St.G1Ev || ch == r.St.G2Ev) {
+			r.deviate(fmt.Sprintf("got %s, want one of %v", e.Kind, kinds), &e)
+			return e, false
+		}
 		r.fail("disagreement", "harness: unexpected event from the store", fmt.Sprintf("got %s, want one of %v", e.Kind, kinds))
 		return e, false
 	case <-time.After(GateTimeout):
+		if r.Model == nil && (ch == r.St.G1Ev || ch == r.St.G2Ev) {
+			r.deviate(fmt.Sprintf("no gate, want one of %v", kinds), nil)
+			return Event{}, false
+		}
 		r.fail("disagreement", "harness: the store did not reach the expected gate", fmt.Sprintf("want one of %v", kinds))
 		return Event{}, false
 	}
